@@ -50,3 +50,64 @@ Theorem C06_unadopt_changes_no_counter :
   heap_same_but_links h h' /\ heap_wf h'.
 Proof. exact unadopt_spec. Qed.
 Print Assumptions C06_unadopt_changes_no_counter.
+
+(** ** identity (ptr_eq / as_ptr), with addresses that the allocator may reuse (Inv/AddrInv.v) *)
+From CR Require Import AddrInv.
+From Coq Require Import ZArith.
+
+(** along every run, whatever the allocator does within its contract ([alloc_ok]: an address handed
+    out is not the address of an allocation that has not been released -- it may be that of a released
+    one), allocations that have not been released have pairwise distinct addresses, none the sentinel *)
+Theorem C06_addresses_stay_distinct :
+  forall pri c am c' am',
+  asteps pri (c, am) (c', am') -> addr_inj (heap_of (st c)) am -> addr_inj (heap_of (st c')) am'.
+Proof. exact asteps_addr_inj. Qed.
+Print Assumptions C06_addresses_stay_distinct.
+
+Theorem C06_addresses_stay_distinct_history :
+  forall fuel h s am am',
+  alloc_ok (heap_of s) (heap_of (fst (run_history fuel s h))) am am' ->
+  addr_inj (heap_of s) am -> addr_inj (heap_of (fst (run_history fuel s h))) am'.
+Proof. exact run_history_addr_inj. Qed.
+Print Assumptions C06_addresses_stay_distinct_history.
+
+(** all handles a program or a destructor script can name agree on identity: equal addresses iff the
+    same object, although addresses are reused *)
+Theorem C06_ptr_eq_exact :
+  forall s self pc k am h1 h2 o1 l1 o2 l2,
+  Inv s (ctx self pc k) -> addr_inj (heap_of s) am ->
+  resolve_strong s self h1 = Some (o1, l1) -> resolve_strong s self h2 = Some (o2, l2) ->
+  (am o1 = am o2 <-> o1 = o2).
+Proof. exact ptr_eq_exact. Qed.
+Print Assumptions C06_ptr_eq_exact.
+
+Theorem C06_model_ptr_eq_is_address_equality :
+  forall s self pc k am h1 h2 o1 l1 o2 l2,
+  Inv s (ctx self pc k) -> addr_inj (heap_of s) am ->
+  resolve_strong s self h1 = Some (o1, l1) -> resolve_strong s self h2 = Some (o2, l2) ->
+  exec_act s self (APtrEq h1 h2) = AO s self (RBool (Z.eqb (am o1) (am o2))) [].
+Proof. exact act_ptr_eq_by_address. Qed.
+Print Assumptions C06_model_ptr_eq_is_address_equality.
+
+Theorem C06_weak_ptr_eq_exact :
+  forall s self pc k am w1 w2 x1 x2,
+  Inv s (ctx self pc k) -> addr_inj (heap_of s) am ->
+  resolve_weak s self w1 = Some x1 -> resolve_weak s self w2 = Some x2 ->
+  let a x := match x with Some o => am o | None => SENTINEL end in
+  (a x1 = a x2 <-> x1 = x2).
+Proof. exact weak_ptr_eq_exact. Qed.
+Print Assumptions C06_weak_ptr_eq_exact.
+
+Theorem C06_weak_and_strong_agree_on_identity :
+  forall s self pc k am hr wr o1 l1 o2,
+  Inv s (ctx self pc k) -> addr_inj (heap_of s) am ->
+  resolve_strong s self hr = Some (o1, l1) -> resolve_weak s self wr = Some (Some o2) ->
+  (am o1 = am o2 <-> o1 = o2).
+Proof. exact weak_strong_ptr_eq_exact. Qed.
+Print Assumptions C06_weak_and_strong_agree_on_identity.
+
+(** the "not released" hypothesis cannot be dropped: the allocator may give a new object the address
+    of a released one, and a stale id would then compare equal *)
+Example C06_address_reuse_is_possible :
+  exists h am, addr_inj h am /\ exists o1 o2, o1 <> o2 /\ am o1 = am o2 /\ (o1 < length h)%nat /\ (o2 < length h)%nat.
+Proof. exact reuse_is_possible. Qed.
